@@ -158,7 +158,11 @@ pub const fn ilog_exact(n: Word, base: Word) -> u32 {
     let mut pow = base;
     let mut exp = 1;
     while pow < n {
-        pow *= base;
+        // the next power may not fit in a Word: then it is beyond n, and n is not a power of base
+        pow = match pow.checked_mul(base) {
+            Some(p) => p,
+            None => return 0,
+        };
         exp += 1;
     }
 
